@@ -17,7 +17,7 @@ if os.path.exists(f'/tmp/verify_round{rnd}.log'):
     for line in open(f'/tmp/verify_round{rnd}.log'):
         m = re.match(r'^RESULT (C\d\d)/([AB]) (.*)', line)
         if m: verify[(m.group(1), m.group(2))] = m.group(3).strip()
-base = subprocess.run(['git','-C','/repo','rev-parse','--short','HEAD'],capture_output=True,text=True).stdout.strip()
+base = {'1':'faac9b3','2':'589916b'}.get(rnd, subprocess.run(['git','-C','/repo','rev-parse','--short','HEAD'],capture_output=True,text=True).stdout.strip())
 for pid in sorted({k[0] for k in caught} | {d[len(prefix):] for d in [x for x in map(lambda n: prefix+n, [])]}):
     pass
 props = sorted(set(p for p,_ in caught) | set(d.replace(os.path.basename(prefix),'') for d in os.listdir(os.path.dirname(prefix)) if d.startswith(os.path.basename(prefix)) and re.match(r'^C\d\d$', d.replace(os.path.basename(prefix),''))))
